@@ -41,7 +41,16 @@ def gen_rounds(seed, tier, run):
     for n in lens:
         for l in structured(rng, n):
             lists.append(l)
+    # long lanes for the stable kind (runs of 32 merged pairwise: lengths that leave a right run of one element only
+    # appear beyond 500 — seeded change C10l); every length in a window, already sorted / random / sorted twice
+    long_lists = []
+    for n in (range(301, 1101) if tier == "quick" else range(301, 2101)):
+        long_lists.append(list(range(n)))
+        if n % 8 == 0:
+            long_lists.append([rng.randint(-1000, 1000) for _ in range(n)])
     groups = []
+    for l in long_lists:
+        out.append(f"sort {arr([len(l)], l)} n z3")
     for l in lists:
         n = len(l)
         idx = len(out)
